@@ -90,6 +90,12 @@ def oracle_cases(ctx, corr):
     for c in getattr(corr, '_cases', []):
         for x in c['runs']:
             out.append({'circuit': c['circuit'], 'ts': x['ts']})
+        # statelessness of transformer objects: first a sibling circuit, then this one, same objects
+        for leaf in passcorr.LEAVES:
+            if leaf == ['ME'] and len(c['circuit']['inputs']) > 5:
+                continue
+            out.append({'circuit': c['circuit'], 'ts': [leaf],
+                        'first': passcorr.sibling_variant(ctx.rng, c['circuit'])})
         out.append({'circuit': c['circuit'], 'ts': [], 'cleanup': len(c['circuit']['inputs']) <= 5})
         out.append({'circuit': c['circuit'], 'ts': [], 'cleanup': False})
     return out
